@@ -12,9 +12,6 @@ package reconciler
 //@ func WriteTxn.*
 //@   trusted
 //@   modifies H_statedb_* H_part_* H_lpm_* E_p_statedb_* E_p_part_* E_p_lpm_* GH_* CH_closed MD_* MV_* MN_* B_*
-//@ func (*DB).WriteTxn
-//@   trusted
-//@   modifies H_statedb_* H_part_* H_lpm_* E_p_statedb_* E_p_part_* E_p_lpm_* GH_* CH_closed MD_* MV_* MN_* B_*
 //@ func (*DB).ReadTxn
 //@   trusted
 //@   pure
@@ -37,6 +34,7 @@ package reconciler
 //@   property C15
 //@   flag nosafety
 //@   maypanic
+//@   requires incr != nil && incr.db != nil && !GH_held[addr(incr.db.mu)]
 //@   requires incr != nil && incr.retries != nil && incr.retries.queue != nil && incr.retries.revQueue != nil && incr.retries.queue != incr.retries.revQueue
 //@   flag dyncall.GetObjectStatus=pure
 //@   flag dyncall.SetObjectStatus=pure
